@@ -53,6 +53,21 @@ pub fn adversarial_list() -> Vec<Vec<u8>> {
     for op in 0..=255u8 {
         v.push(vec![op]);
     }
+    // the hashes the host chain's own outputs pay to, under the other templates: a row may not be disturbed by another
+    // output that carries the same hash / key in a different script kind
+    for seed in [41u8, 42, 43, 44, 60, 61, 62] {
+        let h = refmodel::script::h20(seed);
+        v.push(refmodel::script::p2sh(&h));
+        v.push(refmodel::script::p2pkh(&h));
+        v.push(refmodel::script::witness(0, &h));
+        v.push(refmodel::script::op_return(&h));
+        let mut k = vec![0x02u8];
+        k.extend_from_slice(&h);
+        k.extend_from_slice(&h[..12]);
+        v.push(refmodel::script::p2pk(&k));
+        v.push(refmodel::script::p2pkh(&refmodel::hash::hash160(&k)));
+        v.push(refmodel::script::p2sh(&refmodel::hash::hash160(&k)));
+    }
     // more pushes than a byte-sized counter holds, in the shape of a multisig script
     for k in [255usize, 256, 257, 272] {
         let mut s = vec![0x51];
